@@ -5,9 +5,8 @@ import (
 	"net"
 	"os"
 	"path/filepath"
-	"strconv"
-	"strings"
 	"sync"
+	"syscall"
 	"time"
 )
 
@@ -105,62 +104,64 @@ func (p *Peer) LocalLabel(udp bool) string {
 
 // ---- ports ----
 
-var (
-	portMu   sync.Mutex
-	portNext int
-	portDir  = filepath.Join(os.TempDir(), "verif-ports")
-)
-
+// Loopback ports are handed out from blocks of 256 ports. A process owns a block by holding an
+// exclusive flock on its lock file for as long as it lives (the kernel drops the lock when the
+// process dies, so there is no stale state), which keeps concurrently running check processes
+// (shards, other properties, sensitivity runs) off each other's ports.
 const (
-	portBase  = 10000
-	portCount = 22000 // 10000..31999: below the ephemeral range, above the ports the repository's own tests use
+	portBase   = 10000
+	portBlock  = 256
+	portBlocks = 85 // 10000..31759: below the ephemeral range, above the ports the repository's own tests use
 )
 
-// reserve claims a port for this process across all concurrently running check processes
-// (a lock file named after the port, holding our pid; stale files of dead processes are reclaimed).
-func reserve(port int) bool {
+var (
+	portMu     sync.Mutex
+	portDir    = filepath.Join(os.TempDir(), "verif-ports")
+	ownBlocks  []int
+	blockFiles []*os.File // kept open: closing would drop the lock
+	portNext   int
+)
+
+func acquireBlock() bool {
 	os.MkdirAll(portDir, 0o777) //nolint:errcheck
-	name := filepath.Join(portDir, strconv.Itoa(port))
-	// the lock file appears atomically with its content (hard link of a private temp file), so that a
-	// concurrent process never sees an empty file and mistakes it for a stale one
-	tmp := filepath.Join(portDir, fmt.Sprintf(".tmp-%d-%d", os.Getpid(), port))
-	if err := os.WriteFile(tmp, []byte(strconv.Itoa(os.Getpid())), 0o666); err != nil {
-		return false
-	}
-	defer os.Remove(tmp)
-	for attempt := 0; attempt < 2; attempt++ {
-		if err := os.Link(tmp, name); err == nil {
-			return true
-		}
-		b, rerr := os.ReadFile(name)
-		if rerr != nil {
+	start := (os.Getpid() * 31) % portBlocks
+	for k := 0; k < portBlocks; k++ {
+		b := (start + k) % portBlocks
+		f, err := os.OpenFile(filepath.Join(portDir, fmt.Sprintf("block-%d.lock", b)), os.O_CREATE|os.O_RDWR, 0o666)
+		if err != nil {
 			continue
 		}
-		pid, _ := strconv.Atoi(strings.TrimSpace(string(b)))
-		if pid <= 0 || pid == os.Getpid() {
-			return false // ours already, or unreadable: leave it alone
+		if err := syscall.Flock(int(f.Fd()), syscall.LOCK_EX|syscall.LOCK_NB); err != nil {
+			f.Close()
+			continue
 		}
-		if _, serr := os.Stat(fmt.Sprintf("/proc/%d", pid)); serr == nil {
-			return false // owner alive
-		}
-		os.Remove(name) // owner gone: stale
+		ownBlocks = append(ownBlocks, b)
+		blockFiles = append(blockFiles, f)
+		return true
 	}
 	return false
 }
 
-// FreePort returns a loopback port reserved for this process (no other check process will be
-// handed the same one while we live) that is currently free for both TCP and UDP.
+// FreePort returns a loopback port from a block owned by this process that is currently free for both
+// TCP and UDP. Ports are reused within the process once the sockets of earlier scenarios are closed.
 func FreePort() int {
 	portMu.Lock()
 	defer portMu.Unlock()
-	if portNext == 0 {
-		portNext = (os.Getpid()*7919)%portCount + 1
-	}
-	for tries := 0; tries < portCount; tries++ {
-		port := portBase + portNext%portCount
-		portNext++
-		if CanBind(port) && reserve(port) {
-			return port
+	for attempt := 0; attempt < 4; attempt++ {
+		if len(ownBlocks) == 0 && !acquireBlock() {
+			panic("BROKEN: no free port block (too many check processes at once)")
+		}
+		total := len(ownBlocks) * portBlock
+		for tries := 0; tries < total; tries++ {
+			idx := portNext % total
+			portNext++
+			port := portBase + ownBlocks[idx/portBlock]*portBlock + idx%portBlock
+			if CanBind(port) {
+				return port
+			}
+		}
+		if !acquireBlock() {
+			break
 		}
 	}
 	panic("BROKEN: no free port")
